@@ -21,6 +21,9 @@ pub(crate) struct CobwebCommandQueue<T: Send + Sync + 'static>
 
 impl<T: Send + Sync + 'static> CobwebCommandQueue<T>
 {
+    #[cfg(ukoehb_bevy_cobweb_verif)]
+    pub(crate) fn verif_len(&self) -> usize { self.commands.len() }
+
     /// Removes the inner command queue.
     pub(crate) fn remove(&mut self) -> VecDeque<T>
     {
